@@ -46,14 +46,16 @@ pub fn evaluate_expression(expr: &str, facts: &Facts) -> Result<Value> {
     // No operator found - must be a single value
     // Could be: string literal, field reference (Order.quantity), number (100), or variable
 
-    // Is it a string literal?
+    // Is it a string literal? (test the quotes before slicing: the first/last byte can only be
+    // cut off once they are known to be one-byte quote characters)
     if expr.len() >= 2 {
-        let unquoted = &expr[1..expr.len() - 1];
-        if (expr.starts_with('"') && expr.ends_with('"') && !unquoted.contains('"'))
-            || (expr.starts_with('\'') && expr.ends_with('\'') && !unquoted.contains('\''))
-        {
-            let unquoted = &expr[1..expr.len() - 1];
-            return Ok(Value::String(unquoted.to_string()));
+        for quote in ['"', '\''] {
+            if expr.starts_with(quote) && expr.ends_with(quote) {
+                let unquoted = &expr[1..expr.len() - 1];
+                if !unquoted.contains(quote) {
+                    return Ok(Value::String(unquoted.to_string()));
+                }
+            }
         }
     }
 
@@ -84,7 +86,8 @@ fn find_operator(expr: &str, operators: &[char]) -> Option<usize> {
     let mut paren_depth = 0;
     let mut last_pos = None;
 
-    for (i, ch) in expr.chars().enumerate() {
+    // byte offsets (char_indices), because the caller slices `expr` with the result
+    for (i, ch) in expr.char_indices() {
         match ch {
             '(' => paren_depth += 1,
             ')' => paren_depth -= 1,
